@@ -280,7 +280,12 @@ def gen_mutations(rng, ctx, w, used, n):
         elif k < 0.45 and w["pols"]:
             key = rng.choice(sorted(w["pols"]))
             x = copy.deepcopy(w["pols"][key])
-            which = rng.choice(["sel", "rule", "swap-cidr", "mask"])
+            which = rng.choice(["sel", "rule", "swap-cidr", "mask", "types", "types"])
+            if which == "types":
+                # only the direction changes, selector and rules stay
+                x["types"] = rng.choice([t for t in ([], ["Ingress"], ["Egress"], ["Ingress", "Egress"]) if t != x["types"]])
+                ctx.dist("mut:policy-types-changed")
+                which = "done"
             if which == "mask":
                 for r in x["ingress"] + x["egress"]:
                     for q in r["peers"]:
@@ -292,6 +297,8 @@ def gen_mutations(rng, ctx, w, used, n):
                 x["sel"] = gen_sel(rng)
             elif which == "rule" and (not x["types"] or "Ingress" in x["types"]):
                 x["ingress"] = [gen_rule(rng) for _ in range(rng.choice([0, 1, 2]))]
+            elif which == "done":
+                pass
             else:
                 for r in x["ingress"] + x["egress"]:
                     for q in r["peers"]:
@@ -486,10 +493,10 @@ def case_exprs(case, o):
     corr = "(chk_policy %s %s %s %s)" % (tbl, cstr(HOST), kernels[0], steps)
     mons = []        # (kind, step index, expr, aux)
     for i, (term, cl, kind) in enumerate(ms):
-        if kind == "run":
+        if kind == "run" or (kind == "policy-event" and (term.startswith("(PPolicyUpdated") or term.startswith("(PPolicyAdded"))):
             mons.append(("exact", i, "(mon_exact_is 0 %s %s %s %s %s)" % (tbl, cstr(HOST), cl, kernels[i], kernels[i + 1]),
                          (tbl, cl, kernels[i], kernels[i + 1], "(model_exact_at %s %s %s %s %d%%nat %s)" % (tbl, cstr(HOST), kernels[0], steps, i, cl))))
-            if i > 0 and ms[i - 1][2] == "run":
+            if kind == "run" and i > 0 and ms[i - 1][2] == "run":
                 mons.append(("idem", i, "(kernel_eqv %s %s)" % (kernels[i], kernels[i + 1]), (tbl, ms[i - 1][1], kernels[i - 1], kernels[i],
                                                                                                 "(model_idem_at %s %s %s %s %d%%nat)" % (tbl, cstr(HOST), kernels[0], steps, i))))
         dang = [r for r in o["steps"][i]["rejected"] if (r["kind"], r["why"]) in DANGLING]
